@@ -57,7 +57,8 @@ pub fn outcome_ref(p: &Pos, has_move: bool) -> Option<Outcome> {
 }
 
 /// FULL, S3: classification given the legal-move probe's answer `h`
-pub fn outcome_classification<S: Src, const SIDE: u8>(s: &mut S) {
+/// HC: 0 = the probe answers 'no legal move', 1 = 'has a legal move', 2 = symbolic (both)
+pub fn outcome_classification<S: Src, const SIDE: u8, const HC: u8>(s: &mut S) {
     crate::stubs::draw_hash_pool(s);
     let b = match any_board(s, SIDE) {
         Some(b) => b,
@@ -66,13 +67,15 @@ pub fn outcome_classification<S: Src, const SIDE: u8>(s: &mut S) {
     let p = pos_of(b.raw());
     #[cfg(kani)]
     let h = {
-        let h = s.bool();
+        let h = if HC == 2 { s.bool() } else { HC == 1 };
         unsafe { crate::stubs::HLM = h };
         h
     };
     #[cfg(not(kani))]
     let h = {
-        let _ = s.bool();
+        if HC == 2 {
+            let _ = s.bool();
+        }
         b.has_legal_moves()
     };
     let got = b.calc_outcome();
@@ -90,14 +93,14 @@ pub fn outcome_classification<S: Src, const SIDE: u8>(s: &mut S) {
         None
     };
     vassert!("calc_draw_simple = insufficient material > 75 moves > 50 moves", simple == want_simple);
-    vcover!("checkmate", !h && in_check_ref(&p));
-    vcover!("stalemate", !h && !in_check_ref(&p));
-    vcover!("insufficient: bishops of one colour on both sides", h && insufficient_ref(&p.cells) && occ_of(&p.cells, |c| piece_of(c) == B).count_ones() >= 3);
-    vcover!("two knights is sufficient", h && !insufficient_ref(&p.cells) && occ_of(&p.cells, |c| c != 0).count_ones() == 4 && occ_of(&p.cells, |c| piece_of(c) == N).count_ones() == 2);
-    vcover!("clock 100 claimable", got == Some(Outcome::Draw(DrawReason::Moves50)) && p.mc == 100);
-    vcover!("clock 150 mandatory", got == Some(Outcome::Draw(DrawReason::Moves75)) && p.mc == 150);
-    vcover!("clock 99 nothing", got.is_none() && p.mc == 99);
-    vcover!("forced beats mandatory", !h && p.mc >= 150);
+    vcover!("checkmate (probe says no move)", HC == 1 || (!h && in_check_ref(&p)));
+    vcover!("stalemate (probe says no move)", HC == 1 || (!h && !in_check_ref(&p)));
+    vcover!("insufficient: bishops of one colour on both sides (probe says move)", HC == 0 || (h && insufficient_ref(&p.cells) && occ_of(&p.cells, |c| piece_of(c) == B).count_ones() >= 3));
+    vcover!("two knights is sufficient (probe says move)", HC == 0 || (h && !insufficient_ref(&p.cells) && occ_of(&p.cells, |c| c != 0).count_ones() == 4 && occ_of(&p.cells, |c| piece_of(c) == N).count_ones() == 2));
+    vcover!("clock 100 claimable (probe says move)", HC == 0 || (got == Some(Outcome::Draw(DrawReason::Moves50)) && p.mc == 100));
+    vcover!("clock 150 mandatory (probe says move)", HC == 0 || (got == Some(Outcome::Draw(DrawReason::Moves75)) && p.mc == 150));
+    vcover!("clock 99 nothing (probe says move)", HC == 0 || (got.is_none() && p.mc == 99));
+    vcover!("forced beats mandatory (probe says no move)", HC == 1 || (!h && p.mc >= 150));
 }
 
 /// rule-level lemma behind skipping castling in the probe: a legal castling implies a legal
